@@ -48,6 +48,18 @@ func c11sSize(x *c10sSess, st *c10sSt, open bool, sp c10sStep) (n, pad int, end,
 		L = lo + 1
 	case "far":
 		L = hi + 1 + int64(sp.N)
+	case "srv-s+1":
+		// one byte more than the server itself counts as receivable on the stream
+		if avail, ok := x.s.sc.VPSrvStreamInflow(st.id); ok {
+			L = int64(avail) + 1
+		} else {
+			L = s + 1
+		}
+	case "srv-c+1":
+		// one byte more than the server itself counts as receivable on the connection
+		// (used to pick the size only; never below what the server advertised)
+		avail, _ := x.s.sc.VPSrvConnInflow()
+		L = int64(avail) + 1
 	default:
 		return c10sSizeFit(x, st, open, sp)
 	}
@@ -142,6 +154,38 @@ func c11sGen(t *rapid.T) c10sCase {
 		return sp
 	})
 	c.Steps = rapid.SliceOfN(step, 1, 40).Draw(t, "steps")
+	// Bounded pipe towards the client and runs of steps after which the client does not
+	// read (as in C10): the server's writer blocks, RST_STREAM and WINDOW_UPDATE frames
+	// stay queued while more DATA arrives, then a frame overruns the connection window.
+	c.ReadBuf = rapid.SampledFrom([]int{0, 0, 16, 64, 256}).Draw(t, "read_buf")
+	if c.ReadBuf > 0 {
+		from := rapid.IntRange(0, len(c.Steps)).Draw(t, "nd_from")
+		for i := from; i < len(c.Steps); i++ {
+			c.Steps[i].ND = rapid.IntRange(0, 5).Draw(t, "nd") != 0
+			if c.Steps[i].Kind == "data" && rapid.IntRange(0, 3).Draw(t, "srvRel") == 0 {
+				c.Steps[i].Rel = "srv-c+1"
+			}
+		}
+	}
+	if rapid.IntRange(0, 4).Draw(t, "rstQueuedTemplate") == 2 {
+		// Aimed history: the handler of stream 0 reads nothing and the client reads
+		// nothing; unread PING acks have filled the pipe, so the server's writer is blocked; the client overruns the stream window (the
+		// RST_STREAM for that stays queued) and then sends more than the connection
+		// window on that stream.
+		c.Streams[0].Prog = []c10sOp{{Kind: "wait"}}
+		c.Streams[0].CL = -1
+		c.StreamWin = rapid.SampledFrom([]int32{1, 100, 4096, 16384}).Draw(t, "tmpl_stream_win")
+		c.ReadBuf = rapid.IntRange(16, 200).Draw(t, "tmpl_read_buf")
+		pre := []c10sStep{{Kind: "data", S: 0, Rel: "fit", N: 10, Pad: -1}}
+		for k := rapid.IntRange(1, 16).Draw(t, "tmpl_pings"); k > 0; k-- {
+			pre = append(pre, c10sStep{Kind: "ping", S: 0, Pad: -1, ND: true})
+		}
+		// the stream error (its RST_STREAM stays queued behind the blocked writer) ...
+		pre = append(pre, c10sStep{Kind: "data", S: 0, Rel: "srv-s+1", Pad: -1, ND: true})
+		// ... and more DATA on that stream than the connection window allows
+		pre = append(pre, c10sStep{Kind: "data", S: 0, Rel: "srv-c+1", Pad: -1, ND: true})
+		c.Steps = append(pre, c.Steps...)
+	}
 	c.ShutdownAt = -1
 	if rapid.IntRange(0, 7).Draw(t, "shutdown") == 0 {
 		c.ShutdownAt = rapid.IntRange(0, len(c.Steps)-1).Draw(t, "shutdown_at")
